@@ -12,12 +12,14 @@ open NumOps LawfulNum
 inductive PTy where
   | dim (d : DimV)
   | bool
+  | list (t : PTy)
   | args (ts : List PTy)
 
-/-- value types: what a variable, a parameter or a function result can have -/
+/-- value types: what a variable, a parameter, a list element or a function result can have -/
 def PTy.isVal : PTy → Bool
   | .dim _ => true
   | .bool => true
+  | .list t => t.isVal
   | .args _ => false
 
 /-- A function signature, given by the set of its monomorphic instances `(parameter types, result type)`: a
@@ -66,6 +68,12 @@ inductive HasTy (tbl : Table α) (S : List FnSig) (Γ : List GTy) (L : List PTy)
   | noarg : HasTy tbl S Γ L .noarg (.args [])
   | arg {a rest t ts} : t.isVal = true → HasTy tbl S Γ L a t → HasTy tbl S Γ L rest (.args ts) →
       HasTy tbl S Γ L (.arg a rest) (.args (t :: ts))
+  | lst {elems ts} (t : PTy) : t.isVal = true → (∀ x ∈ ts, x = t) → HasTy tbl S Γ L elems (.args ts) →
+      HasTy tbl S Γ L (.lst elems) (.list t)
+  | head {l t} : t.isVal = true → HasTy tbl S Γ L l (.list t) → HasTy tbl S Γ L (.head l) t
+  | tail {l t} : HasTy tbl S Γ L l (.list t) → HasTy tbl S Γ L (.tail l) (.list t)
+  | cons {a l t} : HasTy tbl S Γ L a t → HasTy tbl S Γ L l (.list t) → HasTy tbl S Γ L (.cons a l) (.list t)
+  | len {l t} : t.isVal = true → HasTy tbl S Γ L l (.list t) → HasTy tbl S Γ L (.len l) (.dim (fun _ => 0))
 
 /-- typing of the `where` clauses of a function: each right-hand side is typed with the parameters and the
 earlier clauses as locals; `ws` lists the types of the new locals -/
@@ -74,11 +82,18 @@ inductive WheresOK (tbl : Table α) (S : List FnSig) (Γ : List GTy) : List PTy 
   | cons {L w t rest ws} : t.isVal = true → HasTy tbl S Γ L w t → WheresOK tbl S Γ (L ++ [t]) rest ws →
       WheresOK tbl S Γ L (w :: rest) (t :: ws)
 
+mutual
 /-- a run-time value agrees with a static type -/
 def VOK (tbl : Table α) : PVal α → PTy → Prop
   | .q x, .dim d => ValOK tbl x d
   | .b _, .bool => True
+  | .list vs, .list t => VOKAll tbl vs t
   | _, _ => False
+/-- every element of a list agrees with the element type -/
+def VOKAll (tbl : Table α) : List (PVal α) → PTy → Prop
+  | [], _ => True
+  | v :: vs, t => VOK tbl v t ∧ VOKAll tbl vs t
+end
 
 /-- a list of values agrees with a list of types, position by position (arguments) -/
 def EnvOK (tbl : Table α) : List (PVal α) → List PTy → Prop
